@@ -32,5 +32,12 @@ let () =
       let hv = (match words h with [_; x] -> n_of_int (int_of_string x) | _ -> failwith "bad DX") in
       let nd = List.filter_map (fun g -> match words g with [] -> None | b :: es -> Some (n_of_int (int_of_string b), List.map pair es)) nodes in
       Printf.printf "%d\n" (int_of_n (dx_leaf (List.map pair (words root)) nd hv))
+    | [h] when (match words h with "NL" :: _ -> true | _ -> false) ->
+      (* NL <dir_nlink 0|1> <count>  -> the parent's link count after ext2fs_mkdir, or EMLINK *)
+      (match words h with
+       | [_; f; n] -> (match mkdir_parent (f = "1") (n_of_int (int_of_string n)) with
+                       | Some c -> Printf.printf "%d\n" (int_of_n c)
+                       | None -> print_endline "EMLINK")
+       | _ -> print_endline "?")
     | _ -> print_endline "?"
   done with End_of_file -> ()
